@@ -77,6 +77,27 @@ def main():
         stats["ledger_" + v] += 1
         thr0 = float(j.split()[7]) == 0.0
         if v not in ("ok", "skip") and not (v == "goal" and thr0): pred(j, "report of a multi-threaded planner rejected by the admission rule: " + v)
+    # ---- PRM's two-thread solve: the cost stored with a solution found at once (obligation prm_bestcost_before_thread; the
+    #      schedule 'store before reset' of ThreadModel.brun): exact solutions marked as satisfying the threshold must carry a cost that does
+    try:
+        cdrv = c.build_driver("cost_driver", link_ompl=True)
+        pj = ["CRUN %s R2 empty 0 length 1.3 %d 0.3 3" % ("PRMstar" if q_ % 2 else "PRM", c.seed * 100 + q_) for q_ in range(16 if quick else 96)]
+        def run_cost(j):
+            try:
+                r = subprocess.run([cdrv] + j.split(), capture_output=True, text=True, timeout=90); return j, r.returncode, r.stdout
+            except subprocess.TimeoutExpired: return j, -999, ""
+        t0 = time.time()
+        with cf.ThreadPoolExecutor(16) as ex: pres = list(ex.map(run_cost, pj))       # oversubscribed on purpose: the lost store needs the planning thread to be late
+        c.step("impl:prm-two-thread-solve", "%s CRUN PRM / PRMstar R2 empty ... (%d runs x 3 solves, 16 at a time)" % (cdrv, len(pj)), time.time() - t0, True)
+        for j, rcj, out in pres:
+            for l in out.split("\n"):
+                t = l.split()
+                if t[:1] == ["SOL"] and len(t) > 10:
+                    stats["prm_solutions"] += 1
+                    if t[2] == "0" and t[5] == "1" and t[4] == "1" and t[10] == "0":
+                        pred(j, "PRM's two-thread solve stored the cost %s (1e-9 units; infinite) with a solution it marks as satisfying the objective's threshold; the path costs %s: the solution thread's update of bestCost_ was overwritten by the planning thread" % (t[6], t[7])); break
+    except vf.BuildError as ex:
+        c.broken.append("C19: cost driver does not build: " + str(ex)[-300:])
     # ---- ThreadSanitizer (thorough): an instrumented library and stress driver
     tsan = None
     if not quick:
@@ -102,7 +123,7 @@ def main():
                   "rule": "configuration re-extracted from 8 source locations on every run; stress: %d threads x {%d checkMotion calls each on 64 states, GNAT nearest / nearestK / nearestR on 3000 integer-lattice points, 200 generators, 200 x 3 state spaces, 100 solution paths, terminate() from another thread, 500 log messages}; %d runs of the multi-threaded planners (pRRT, pSBL with 2 threads, CForest with 2 instances, PRM's two-thread solve, AnytimePathShortening) adjudicated by the C01 rule; thorough: ThreadSanitizer build of libompl + stress driver" % (T, 20000 if quick else 100000, len(jobs)),
                   "disagreements": 0 if config_broken is None else 1, "predicate_failures": npred, "config": cfg, "config_notes": notes, "histogram": dict(stats), "tsan": tsan})
     c.cov["samples"] = ops[:2] + jobs[:1]
-    c.cov["trusted_base"] += ["lib/thread_config.py (regular-expression translator over 8 source files; its output ThreadConfig.v is compiled against the theorems on every run)",
+    c.cov["trusted_base"] += ["lib/thread_config.py (regular-expression translator over 9 source files; its output ThreadConfig.v is compiled against the theorems on every run)",
                              "harness/thread_driver.cpp; the C++11 memory model and std::mutex / std::atomic are taken as specified (an atomic RMW is one step, a locked section is one step)"]
     c.assumptions += ["partial: 'every interleaving of the worker threads of the multi-threaded planners' is not modelled; those planners are run repeatedly and adjudicated by the admission rule (and by ThreadSanitizer in the thorough tier)",
                       "the translator recognises the synchronisation idioms present in the unchanged tree; an equivalent but differently written idiom would break the obligation without breaking the property (then the stress search decides)"]
